@@ -76,6 +76,12 @@ static const Scenario kScenarios[] = {
             "c", "app all", { { NULL } } },
   /* 32 */ { "generator_runs_restat", { RULES "build pre: cc s1\nbuild gen.stamp: conf cfg pre\nbuild out: cc s2 || gen.stamp\nbuild post: cc out\n", RULES "build pre: cc s1\nbuild gen.stamp: conf cfg pre\nbuild out: cc s2 || gen.stamp\n  command = cc -O2 $in -o $out\nbuild post: cc out\n", NULL },
             "s1 s2 cfg", "post", { { "gen.stamp", "", RUNS_RESTAT_TOOL, NULL }, { NULL } } },
+  /* 33 */ { "dyndep_after_order_only", { RULES "rule mkdd\n  command = scan $in > $out\nbuild dd: mkdd ddsrc\nbuild oo: cc s0\nbuild h2: gen s\nbuild out: cc in || oo dd\n  dyndep = dd\nbuild x: cc out\n", NULL, NULL },
+            "ddsrc s0 s in", "x out", { { "dd", "", 0, "ninja_dyndep_version = 1\nbuild out | out.imp: dyndep | h2\n" }, { "h2", "", KEEP_IF_SAME | HALVE, NULL }, { "out", "h2", 0, NULL }, { NULL } } },
+  /* 34 */ { "console_first", { RULES "build c1: cc s1\n  pool = console\nbuild w1: cc s2\nbuild w2: cc s3\nbuild top: cc c1 w1 w2\n", NULL, NULL },
+            "s1 s2 s3", "top", { { NULL } } },
+  /* 35 */ { "restat_consumer", { RULES "build mid: gen s\nbuild out: cc mid s2\n", NULL, NULL },
+            "s s2", "out", { { "mid", "", KEEP_IF_SAME | HALVE, NULL }, { NULL } } },
 };
 #ifndef SCENARIO
 #define SCENARIO 0
